@@ -1,9 +1,134 @@
 import Cdecao.Engine.Core
 /-! Spike: from node-level specifications to optimality of the whole search (composition used by
     C02_partial, and `Bounded` for C03): an abstract solution space `S` with a score, a set `Sol n`
-    of solutions consistent with each subproblem, and three facts about the node solver. -/
+    of solutions consistent with each subproblem, and three facts about the node solver.
+
+    The specification is relative to a tree invariant `Ok : ν → Prop` (the facts about the node solver
+    are only needed — and for caobab only true — for nodes the search can actually produce); the
+    unrelativised `NodeSpec` is the special case `Ok := fun _ => True`. -/
 namespace Eng3
 variable {ν σ : Type} [Solver ν σ]
+
+/-- the part of the node specification that yields `Bounded` (no exhaustiveness, no progress) -/
+structure BoundSpec (S : Type) (score : S → Nat) (Sol : ν → S → Prop) (sem : σ → S) (Ok : ν → Prop) : Prop where
+  /-- the invariant is inherited by the children the engine pushes -/
+  okKids : ∀ (n : ν) sc, Ok n → Solver.res n = .infeasible sc → ∀ k ∈ Solver.kids n, Ok k
+  /-- a feasible verdict returns an element of the subproblem's solution set, with its score -/
+  feasIn : ∀ (n : ν) sol sc, Ok n → Solver.res n = .feasible sol sc → Sol n (sem sol) ∧ score (sem sol) = sc
+  /-- an infeasible verdict carries an upper bound -/
+  bound : ∀ (n : ν) sc, Ok n → Solver.res n = .infeasible sc → ∀ s, Sol n s → score s ≤ sc
+  /-- branching only restricts -/
+  mono : ∀ (n : ν) sc, Ok n → Solver.res n = .infeasible sc → ∀ k ∈ Solver.kids n, ∀ s, Sol k s → Sol n s
+
+/-- the full node specification, relative to the tree invariant `Ok` -/
+structure NodeSpecOn (S : Type) (score : S → Nat) (Sol : ν → S → Prop) (sem : σ → S) (μ : ν → Nat)
+    (Ok : ν → Prop) : Prop extends BoundSpec S score Sol sem Ok where
+  /-- a feasible verdict returns a best element of the subproblem's solution set -/
+  feasOpt : ∀ (n : ν) sol sc, Ok n → Solver.res n = .feasible sol sc → ∀ s, Sol n s → score s ≤ sc
+  /-- "no solution" is only answered when the solution set is empty -/
+  none : ∀ (n : ν), Ok n → Solver.res n = .noSol → ∀ s, ¬ Sol n s
+  /-- the branches cover the solution set -/
+  cover : ∀ (n : ν) sc, Ok n → Solver.res n = .infeasible sc → ∀ s, Sol n s → ∃ k ∈ Solver.kids n, Sol k s
+  /-- branching makes progress -/
+  prog : ∀ (n : ν) sc, Ok n → Solver.res n = .infeasible sc → ∀ k ∈ Solver.kids n, μ k < μ n
+  nopanic : ∀ (n : ν), Ok n → Solver.res n ≠ .panic
+
+variable {S : Type} {score : S → Nat} {Sol : ν → S → Prop} {sem : σ → S} {μ : ν → Nat} {Ok : ν → Prop}
+
+/-- a pushed child is a child of an infeasible node -/
+theorem pushed_cases {k t : ν} (hk : k ∈ pushed t) : ∃ sc, Solver.res t = .infeasible sc ∧ k ∈ Solver.kids t := by
+  cases hr : Solver.res t with
+  | infeasible sc => exact ⟨sc, rfl, by simpa [pushed, hr] using hk⟩
+  | noSol => simp [pushed, hr] at hk
+  | feasible sol sc => simp [pushed, hr] at hk
+  | panic => simp [pushed, hr] at hk
+
+/-- the invariant holds on the whole tree below an `Ok` node -/
+theorem ok_desc (h : BoundSpec S score Sol sem Ok) {f n : ν} (hd : Desc f n) : Ok n → Ok f := by
+  induction hd with
+  | refl => exact id
+  | @step k t hk _ ih =>
+    intro ht
+    obtain ⟨sc, hr, hk'⟩ := pushed_cases hk
+    exact ih (h.okKids t sc ht hr k hk')
+
+theorem sol_mono_desc_on (h : BoundSpec S score Sol sem Ok) {f n : ν} (hd : Desc f n) :
+    Ok n → ∀ s, Sol f s → Sol n s := by
+  induction hd with
+  | refl => intro _ s hs; exact hs
+  | @step k t hk _ ih =>
+    intro ht s hs
+    obtain ⟨sc, hr, hk'⟩ := pushed_cases hk
+    exact h.mono t sc ht hr k hk' s (ih (h.okKids t sc ht hr k hk') s hs)
+
+/-- the node scores bound everything below: the hypothesis of the engine theorems -/
+theorem bounded_of_bspec (h : BoundSpec S score Sol sem Ok) (root : ν) (hroot : Ok root) : Bounded root := by
+  intro n hdn s hs k hk f sc hdf ⟨sol, hf⟩
+  have hn : Ok n := ok_desc h hdn hroot
+  have hk' : Ok k := h.okKids n s hn hs k hk
+  have hf' : Ok f := ok_desc h hdf hk'
+  obtain ⟨h1, h2⟩ := h.feasIn f sol sc hf' hf
+  have := sol_mono_desc_on h hdf hk' _ h1
+  have := h.mono n s hn hs k hk _ this
+  have := h.bound n s hn hs _ this
+  omega
+
+/-- every solution of a subproblem is dominated by a feasible node below it -/
+theorem exists_feasible_above_on (h : NodeSpecOn S score Sol sem μ Ok) : ∀ (m : Nat) (n : ν), μ n ≤ m → Ok n →
+    ∀ s, Sol n s → ∃ f sol sc, Desc f n ∧ Solver.res f = .feasible sol sc ∧ score s ≤ sc := by
+  intro m
+  induction m with
+  | zero =>
+    intro n hn hok s hs
+    cases hr : Solver.res n with
+    | feasible sol sc => exact ⟨n, sol, sc, Desc.refl _, hr, h.feasOpt n sol sc hok hr s hs⟩
+    | noSol => exact absurd hs (h.none n hok hr s)
+    | panic => exact absurd hr (h.nopanic n hok)
+    | infeasible sc =>
+      obtain ⟨k, hk, _⟩ := h.cover n sc hok hr s hs
+      have := h.prog n sc hok hr k hk; omega
+  | succ m ih =>
+    intro n hn hok s hs
+    cases hr : Solver.res n with
+    | feasible sol sc => exact ⟨n, sol, sc, Desc.refl _, hr, h.feasOpt n sol sc hok hr s hs⟩
+    | noSol => exact absurd hs (h.none n hok hr s)
+    | panic => exact absurd hr (h.nopanic n hok)
+    | infeasible sc =>
+      obtain ⟨k, hk, hks⟩ := h.cover n sc hok hr s hs
+      have hμ := h.prog n sc hok hr k hk
+      obtain ⟨f, sol, sc', hd, hf, hle⟩ := ih k (by omega) (h.okKids n sc hok hr k hk) s hks
+      exact ⟨f, sol, sc', Desc.step (by simp [pushed, hr, hk]) hd, hf, hle⟩
+
+/-- C02 (composition), relative to a tree invariant: for every thread count and schedule, the finished
+    search reports a solution of maximal score of the root's solution set, or nothing iff that set is empty. -/
+theorem bab_optimal_on (h : NodeSpecOn S score Sol sem μ Ok) {root : ν} (hroot : Ok root) {top T : Nat}
+    {c : Cfg ν σ} (hT : 0 < T)
+    (htop : ∀ s, Sol root s → score s ≤ top) (hr : Reach root top T c) (hd : AllDone c) :
+    (c.best = none → ∀ s, ¬ Sol root s) ∧
+    (∀ sol, c.best = some sol → Sol root (sem sol) ∧ score (sem sol) = c.bestScore ∧
+      ∀ s, Sol root s → score s ≤ c.bestScore) := by
+  have hb := bounded_of_bspec h.toBoundSpec root hroot
+  have htop' : ∀ f sc, Desc f root → IsFeas f sc → sc ≤ top := by
+    intro f sc hdf ⟨sol, hf⟩
+    obtain ⟨h1, h2⟩ := h.feasIn f sol sc (ok_desc h.toBoundSpec hdf hroot) hf
+    have := htop _ (sol_mono_desc_on h.toBoundSpec hdf hroot _ h1)
+    omega
+  obtain ⟨a, b⟩ := C09_final hT hb htop' hr hd
+  have dom : ∀ s, Sol root s → c.best ≠ none ∧ score s ≤ c.bestScore := by
+    intro s hs
+    obtain ⟨f, sol, sc, hdf, hf, hle⟩ := exists_feasible_above_on h (μ root) root (Nat.le_refl _) hroot s hs
+    obtain ⟨h1, h2⟩ := a f sc hdf ⟨sol, hf⟩
+    exact ⟨h1, by omega⟩
+  refine ⟨?_, ?_⟩
+  · intro hn s hs; exact (dom s hs).1 hn
+  · intro sol hsol
+    rcases b with hn | ⟨f, sol', hdf, hf, hbest⟩
+    · rw [hn] at hsol; cases hsol
+    · rw [hbest] at hsol; cases hsol
+      obtain ⟨h1, h2⟩ := h.feasIn f sol _ (ok_desc h.toBoundSpec hdf hroot) hf
+      exact ⟨sol_mono_desc_on h.toBoundSpec hdf hroot _ h1, h2, fun s hs => (dom s hs).2⟩
+
+/-! ### the unrelativised specification (`Ok := fun _ => True`) -/
 
 structure NodeSpec (S : Type) (score : S → Nat) (Sol : ν → S → Prop) (sem : σ → S) (μ : ν → Nat) : Prop where
   /-- a feasible verdict returns a best element of the subproblem's solution set, with its score -/
@@ -19,55 +144,28 @@ structure NodeSpec (S : Type) (score : S → Nat) (Sol : ν → S → Prop) (sem
   prog : ∀ (n : ν) sc, Solver.res n = .infeasible sc → ∀ k ∈ Solver.kids n, μ k < μ n
   nopanic : ∀ (n : ν), Solver.res n ≠ .panic
 
-variable {S : Type} {score : S → Nat} {Sol : ν → S → Prop} {sem : σ → S} {μ : ν → Nat}
+theorem NodeSpec.on (h : NodeSpec S score Sol sem μ) : NodeSpecOn S score Sol sem μ (fun _ => True) where
+  okKids := fun _ _ _ _ _ _ => trivial
+  feasIn := fun n sol sc _ hr => ⟨(h.feas n sol sc hr).1, (h.feas n sol sc hr).2.1⟩
+  bound := fun n sc _ => h.bound n sc
+  mono := fun n sc _ => h.mono n sc
+  feasOpt := fun n sol sc _ hr => (h.feas n sol sc hr).2.2
+  none := fun n _ => h.none n
+  cover := fun n sc _ => h.cover n sc
+  prog := fun n sc _ => h.prog n sc
+  nopanic := fun n _ => h.nopanic n
 
-theorem sol_mono_desc (h : NodeSpec S score Sol sem μ) {f n : ν} (hd : Desc f n) : ∀ s, Sol f s → Sol n s := by
-  induction hd with
-  | refl => intro s hs; exact hs
-  | @step k t hk _ ih =>
-    intro s hs
-    cases hr : Solver.res t with
-    | infeasible sc =>
-      have hk' : k ∈ Solver.kids t := by simpa [pushed, hr] using hk
-      exact h.mono t sc hr k hk' s (ih s hs)
-    | noSol => simp [pushed, hr] at hk
-    | feasible sol sc => simp [pushed, hr] at hk
-    | panic => simp [pushed, hr] at hk
+theorem sol_mono_desc (h : NodeSpec S score Sol sem μ) {f n : ν} (hd : Desc f n) : ∀ s, Sol f s → Sol n s :=
+  sol_mono_desc_on h.on.toBoundSpec hd trivial
 
 /-- the node scores bound everything below: the hypothesis of the engine theorems -/
-theorem bounded_of_spec (h : NodeSpec S score Sol sem μ) (root : ν) : Bounded root := by
-  intro n _ s hs k hk f sc hdf ⟨sol, hf⟩
-  obtain ⟨h1, h2, _⟩ := h.feas f sol sc hf
-  have := sol_mono_desc h hdf _ h1
-  have := h.mono n s hs k hk _ this
-  have := h.bound n s hs _ this
-  omega
+theorem bounded_of_spec (h : NodeSpec S score Sol sem μ) (root : ν) : Bounded root :=
+  bounded_of_bspec h.on.toBoundSpec root trivial
 
 /-- every solution of a subproblem is dominated by a feasible node below it -/
 theorem exists_feasible_above (h : NodeSpec S score Sol sem μ) : ∀ (m : Nat) (n : ν), μ n ≤ m → ∀ s, Sol n s →
-    ∃ f sol sc, Desc f n ∧ Solver.res f = .feasible sol sc ∧ score s ≤ sc := by
-  intro m
-  induction m with
-  | zero =>
-    intro n hn s hs
-    cases hr : Solver.res n with
-    | feasible sol sc => exact ⟨n, sol, sc, Desc.refl _, hr, (h.feas n sol sc hr).2.2 s hs⟩
-    | noSol => exact absurd hs (h.none n hr s)
-    | panic => exact absurd hr (h.nopanic n)
-    | infeasible sc =>
-      obtain ⟨k, hk, _⟩ := h.cover n sc hr s hs
-      have := h.prog n sc hr k hk; omega
-  | succ m ih =>
-    intro n hn s hs
-    cases hr : Solver.res n with
-    | feasible sol sc => exact ⟨n, sol, sc, Desc.refl _, hr, (h.feas n sol sc hr).2.2 s hs⟩
-    | noSol => exact absurd hs (h.none n hr s)
-    | panic => exact absurd hr (h.nopanic n)
-    | infeasible sc =>
-      obtain ⟨k, hk, hks⟩ := h.cover n sc hr s hs
-      have hμ := h.prog n sc hr k hk
-      obtain ⟨f, sol, sc', hd, hf, hle⟩ := ih k (by omega) s hks
-      exact ⟨f, sol, sc', Desc.step (by simp [pushed, hr, hk]) hd, hf, hle⟩
+    ∃ f sol sc, Desc f n ∧ Solver.res f = .feasible sol sc ∧ score s ≤ sc :=
+  fun m n hn => exists_feasible_above_on h.on m n hn trivial
 
 /-- C02 (composition): for every thread count and schedule, the finished search reports a solution of
     maximal score of the root's solution set, or nothing iff that set is empty. -/
@@ -75,27 +173,9 @@ theorem bab_optimal (h : NodeSpec S score Sol sem μ) {root : ν} {top T : Nat} 
     (htop : ∀ s, Sol root s → score s ≤ top) (hr : Reach root top T c) (hd : AllDone c) :
     (c.best = none → ∀ s, ¬ Sol root s) ∧
     (∀ sol, c.best = some sol → Sol root (sem sol) ∧ score (sem sol) = c.bestScore ∧
-      ∀ s, Sol root s → score s ≤ c.bestScore) := by
-  have hb := bounded_of_spec h root
-  have htop' : ∀ f sc, Desc f root → IsFeas f sc → sc ≤ top := by
-    intro f sc hdf ⟨sol, hf⟩
-    obtain ⟨h1, h2, _⟩ := h.feas f sol sc hf
-    have := htop _ (sol_mono_desc h hdf _ h1)
-    omega
-  obtain ⟨a, b⟩ := C09_final hT hb htop' hr hd
-  have dom : ∀ s, Sol root s → c.best ≠ none ∧ score s ≤ c.bestScore := by
-    intro s hs
-    obtain ⟨f, sol, sc, hdf, hf, hle⟩ := exists_feasible_above h (μ root) root (Nat.le_refl _) s hs
-    obtain ⟨h1, h2⟩ := a f sc hdf ⟨sol, hf⟩
-    exact ⟨h1, by omega⟩
-  refine ⟨?_, ?_⟩
-  · intro hn s hs; exact (dom s hs).1 hn
-  · intro sol hsol
-    rcases b with hn | ⟨f, sol', hdf, hf, hbest⟩
-    · rw [hn] at hsol; cases hsol
-    · rw [hbest] at hsol; cases hsol
-      obtain ⟨h1, h2, _⟩ := h.feas f sol _ hf
-      exact ⟨sol_mono_desc h hdf _ h1, h2, fun s hs => (dom s hs).2⟩
+      ∀ s, Sol root s → score s ≤ c.bestScore) :=
+  bab_optimal_on h.on (root := root) trivial hT htop hr hd
 
+#print axioms bab_optimal_on
 #print axioms bab_optimal
 end Eng3
